@@ -29,7 +29,7 @@ int main()
     { parser p; p.toggle("no-color"); int given = -1; int o = outcome([&] { given = run(p, { "--no-color" }).given("no-color"); });
       DEV("C11 a toggle whose own name starts with no- can be given (known finding toggle_named_no)", !(o == 0 && given == 1)); }
     { parser p; p.accept_positionals(3); std::vector<std::string> pos; int o = outcome([&] { pos = run(p, { "--", "-" }).positionals(); });
-      DEV("C12 a lone - after -- is a positional (known finding argv_after_double_dash)", !(o == 0 && pos.size() == 1 && pos[0] == "-")); }
+      DEV("C12 a lone - after -- is a positional (known finding malformed_dash_in_positional_part)", !(o == 0 && pos.size() == 1 && pos[0] == "-")); }
     { parser p; p.option("o").default_value("d"); p.toggle("t"); p.multi_option("m").optional(); p.accept_positionals(2);
       int o1 = outcome([&] { run(p, { "--o", "1", "--t", "--m", "a", "p" }); }); std::string v; int t = -1; size_t m = 99, np = 99; bool prov = true;
       int o2 = outcome([&] { auto r = run(p, {}); v = r.get("o"); t = r.given("t"); m = r.count("m"); np = r.positionals().size(); prov = r.provided("o"); });
